@@ -299,36 +299,46 @@ func afterState(w *sim.World, id string) (string, error) {
 	return "gone", nil
 }
 
-// await waits for the request; if expectFast and nothing came back within hangCeiling it reports a hang, provided
-// the core itself shows the transition `tr` still in progress (otherwise: infrastructure trouble).
-func await(w *sim.World, ch chan rpcResult, expectFast bool, tr string) (res rpcResult, hang bool, hangState string, err error) {
-	ceiling := reqCeiling
+// await waits for the request. A request that is expected to take milliseconds and has not answered within hangCeiling
+// is reported as a hang only if (a) the core itself lists the transition `tr` as in progress and (b) the master has seen
+// no transition command of this request at all — i.e. the core is not waiting for anybody's answer, there is no timer on
+// its path. If commands were sent, the core is waiting for its own response timeout: keep waiting (up to reqCeiling) and
+// report what it finally answers. Everything else is infrastructure trouble (inconclusive).
+func await(w *sim.World, ch chan rpcResult, expectFast bool, tr string, mark int, simEv string) (res rpcResult, hang bool, hangState string, err error) {
+	t0 := time.Now()
 	if expectFast {
-		ceiling = hangCeiling
+		select {
+		case res = <-ch:
+			return res, false, "", nil
+		case <-time.After(hangCeiling):
+		}
+		envs, e := envSnapshot(w)
+		if e != nil {
+			return res, false, "", e
+		}
+		if commandsSince(w, mark, simEv).Len() == 0 {
+			if len(envs) == 1 && envs[0].GetCurrentTransition() == tr {
+				// one more look after a pause: still no answer, still nothing sent
+				time.Sleep(2 * time.Second)
+				select {
+				case res = <-ch:
+					return res, false, "", nil
+				default:
+				}
+				if commandsSince(w, mark, simEv).Len() == 0 {
+					return res, true, envs[0].GetState(), nil
+				}
+			} else {
+				return res, false, "", &sim.InfraError{What: fmt.Sprintf("no answer within %s, nothing sent and the core does not show %s in progress", hangCeiling, tr)}
+			}
+		}
 	}
 	select {
 	case res = <-ch:
 		return res, false, "", nil
-	case <-time.After(ceiling):
+	case <-time.After(reqCeiling - time.Since(t0)):
 	}
-	if !expectFast {
-		return res, false, "", &sim.InfraError{What: "request ceiling reached"}
-	}
-	envs, e := envSnapshot(w)
-	if e != nil {
-		return res, false, "", e
-	}
-	if len(envs) == 1 && envs[0].GetCurrentTransition() == tr {
-		// one more look after a pause: still there, nothing sent meanwhile
-		time.Sleep(2 * time.Second)
-		select {
-		case res = <-ch:
-			return res, false, "", nil
-		default:
-		}
-		return res, true, envs[0].GetState(), nil
-	}
-	return res, false, "", &sim.InfraError{What: fmt.Sprintf("no answer within %s and the core does not show %s in progress", ceiling, tr)}
+	return res, false, "", &sim.InfraError{What: "request ceiling reached"}
 }
 
 // isGrpc: err is an answer of the core (a gRPC status set by the handler), not transport/deadline trouble.
@@ -441,7 +451,7 @@ func runScenario(in string) (string, error) {
 	var res rpcResult
 	var hang bool
 	var hangState string
-	res, hang, hangState, err = await(w, ch, expectFast, "CONFIGURE")
+	res, hang, hangState, err = await(w, ch, expectFast, "CONFIGURE", mark, "CONFIGURE")
 	if err != nil {
 		return "", err
 	}
@@ -511,7 +521,7 @@ func runScenario(in string) (string, error) {
 			r, err := w.Client().ControlEnvironment(ctx, &pb.ControlEnvironmentRequest{Id: id, Type: op})
 			ch <- rpcResult{state: r.GetState(), err: err}
 		}()
-		res, hang, hangState, err = await(w, ch, !slow(st.outs), st.ev)
+		res, hang, hangState, err = await(w, ch, !slow(st.outs), st.ev, mark, simEvent[st.ev])
 		if err != nil {
 			return "", err
 		}
